@@ -100,7 +100,70 @@ def check_ops(inp):
     return []
 
 
-CHECKS = {"ops": check_ops}
+def check_shared(inp):
+    """
+    ONE object shared by 2-4 threads, each calling a list of accessors, interleaved at line granularity by
+    the deterministic scheduler (vf.sched): an immutable value must give every thread the sequential answers.
+    """
+    import os
+    import cvss
+    from .. import sched
+    ver, s = inp["ver"], inp["s"]
+    C = obs.classes()[ver]
+    A = dict(accessors(ver))
+    twin = C(s)
+    A["eq_twin"] = lambda o: [bool(o == twin), bool(twin == o), hash(o) == hash(twin)]
+    first = dict((n, f(C(s))) for n, f in A.items())
+    o = C(s)
+
+    def job(names):
+        def run():
+            return [A[n](o) for n in names]
+        return run
+    S = sched.Sched([job(names) for names in inp["threads"]], inp["schedule"],
+                    os.path.dirname(os.path.abspath(cvss.__file__)), inp.get("tail_quantum"))
+    res = S.run()
+    inp["_switches"] = S.switches
+    fails = []
+    for names, r in zip(inp["threads"], res):
+        if isinstance(r, dict) and "thread_exc" in r:
+            fails.append(failure("no exception", r["thread_exc"], note="thread calling %s on the shared object" % names))
+            continue
+        for n, x in zip(names, r):
+            if x != first[n]:
+                fails.append(failure(first[n], x, note="%s on an object shared between threads" % n))
+                break
+    return fails
+
+
+CHECKS = {"ops": check_ops, "shared": check_shared}
+
+
+def shared_part(n_examples, shard):
+    from hypothesis import given, strategies as st
+    part = runner.Part(PID)
+
+    @st.composite
+    def case(draw):
+        ver = draw(gen.version_key())
+        s = draw(gen.valid(ver))
+        names = sorted(accessors(ver)) + ["eq_twin"]
+        n = draw(st.integers(2, 4))
+        threads = [draw(st.lists(st.sampled_from(names), min_size=1, max_size=4)) for _ in range(n)]
+        schedule = [list(x) for x in draw(st.lists(st.tuples(st.integers(0, n - 1), st.integers(1, 25)), min_size=3, max_size=60))]
+        tail = draw(st.sampled_from((None, 2, 5, 11, 37)))
+        return {"ver": ver, "s": s, "threads": threads, "schedule": schedule, "tail_quantum": tail}
+
+    @runner.seeded(18, 500 + shard)
+    @runner.hyp_settings(n_examples)
+    @given(case())
+    def t(inp):
+        inp = dict(inp)
+        ok = part.check("shared", check_shared, inp, hyp=True)
+        sw = inp.pop("_switches", 0)
+        part.count(inp, nontrivial=sw >= 3, classes=("shared-object", "shared:switches>=3" if sw >= 3 else "shared:switches<3"))
+    runner.run_hyp(part, t, "C18.shared")
+    return part
 
 
 def hyp_part(n_examples, shard, steps):
@@ -193,14 +256,18 @@ def hyp_part(n_examples, shard, steps):
 
 def run(tier, t0):
     if tier == "quick":
-        part = runner.hyp_shards("vf.props.c18", "hyp_part", 640, args=(30,))
+        part = runner.hyp_shards("vf.props.c18", "hyp_part", 1600, args=(30,))
+        part.merge(runner.hyp_shards("vf.props.c18", "shared_part", 1600))
     else:
         part = runner.hyp_shards("vf.props.c18", "hyp_part", 32000, args=(50,))
+        part.merge(runner.hyp_shards("vf.props.c18", "shared_part", 64000))
     rule = ("one accepted vector per case (any version, any spelling) and a generated sequence of operations: each public "
             "accessor (scores, severities, clean_vector in both modes, rh_vector, sub-vectors, as_json with each option pair, "
             "hash), ==/hash against a twin, and mutation of a freshly returned as_json() dict (clear / overwrite / add / pop / "
             "overwrite vectorString and baseScore). non-trivial = sequence of >= 3 steps that repeats an accessor after a "
-            "different one or after a dict mutation; distinct by hash of (vector, sequence)")
+            "different one or after a dict mutation; distinct by hash of (vector, sequence). Second generator: ONE object "
+            "shared by 2-4 threads that call accessor lists under a drawn line-level schedule (vf.sched); non-trivial = >= 3 "
+            "forced thread switches")
     return runner.finish(part, tier, t0, rule,
                          ["only observable results are compared (vars(obj) is not: benign memoisation must not alarm)"],
-                         required=("v2", "v3", "v4", "mutated", "len>=10"))
+                         required=("v2", "v3", "v4", "mutated", "len>=10", "shared-object", "shared:switches>=3"))
